@@ -59,6 +59,12 @@ func c16ExpectTemplate(s string) (exp string, t tmpl.T, why string) {
 	case tmpl.Grey:
 		return "either", t, "grey: " + strings.Join(notes, ", ")
 	}
+	// larking documents a cap of 64 lexer tokens per template: beyond it a template may be
+	// refused (with an error). The bound below counts every punctuation character and every run of
+	// other characters as a token, which never under-counts.
+	if c16TokenBound(s) > 64 {
+		exp, why = "either", "more than 64 tokens"
+	}
 	for _, v := range t.Vars() {
 		switch c16FieldClass(v) {
 		case "unknown":
@@ -71,6 +77,38 @@ func c16ExpectTemplate(s string) (exp string, t tmpl.T, why string) {
 		exp = "accept"
 	}
 	return exp, t, why
+}
+
+func c16TokenBound(s string) int {
+	n, inRun := 1, false // the end-of-input token
+	for _, r := range s {
+		if strings.ContainsRune("/{}=.:*", r) {
+			n++
+			inRun = false
+		} else if !inRun {
+			n++
+			inRun = true
+		}
+	}
+	return n
+}
+
+// c16Oversized lists templates around and beyond the token cap, and with very long literals.
+func c16Oversized() []string {
+	var out []string
+	for _, k := range []int{29, 30, 31, 32, 33, 40, 63, 64, 65, 100, 400} {
+		segs := make([]string, k)
+		for i := range segs {
+			segs[i] = fmt.Sprintf("l%d", i)
+		}
+		lit := "/" + strings.Join(segs, "/")
+		out = append(out, lit, lit+":vb", lit+"/{s}", lit+"/{s=**}", "/{s="+strings.Join(segs, "/")+"/*}", "/{s="+strings.Join(segs, "/")+"/**}:vb", "/{n.s}"+lit)
+	}
+	for _, n := range []int{63, 64, 65, 1000, 5000} {
+		L := strings.Repeat("q", n)
+		out = append(out, "/"+L, "/"+L+"/{s}", "/a:"+L, "/{s="+L+"/*}")
+	}
+	return out
 }
 
 var c16Alphabet = tmplAlphabet{
@@ -173,7 +211,7 @@ func (s *routeSchema) newMuxSteps(rules []boundRule, nonEmpty bool, res *c16Resu
 
 func runC16(c *Ctx) {
 	r := c.Run
-	r.Rule("(a) every template with 1..2 (thorough 3) segments over literals {a,bb,a.b,a-b,v1}, variable forms incl. nested field paths, verbs; (b) every single-character edit (delete/insert/replace from \"{}=/*:.a\") of those, classified by the reference parser; (c) every body × response_body selector; (d) nested additional bindings, and rule sets that fail on a later binding after valid bindings were placed at or below existing nodes; (f) a second owner of an already-served method whose descriptor is another revision (same, new valid, and six kinds of invalid rule sets); (e) conflicting bindings (same path: same verb, '*' vs verb, verb vs '*', re-declared implicit path after and before its owner is registered, across services and inside one service) — each on an empty mux and on a mux already serving another service, from service config and from annotations; distinct = (expectation class, outcome) × template shape")
+	r.Rule("(a) every template with 1..2 (thorough 3) segments over literals {a,bb,a.b,a-b,v1}, variable forms incl. nested field paths, verbs; (a') templates of 29..400 segments (literal, with a verb, a trailing variable or **, a variable pattern of that many segments) and literals of 63..5000 bytes: accepted up to the documented 64-token cap, accepted or refused with an error beyond it; (b) every single-character edit (delete/insert/replace from \"{}=/*:.a\") of those, classified by the reference parser; (c) every body × response_body selector; (d) nested additional bindings, and rule sets that fail on a later binding after valid bindings were placed at or below existing nodes; (f) a second owner of an already-served method whose descriptor is another revision (same, new valid, and six kinds of invalid rule sets); (e) conflicting bindings (same path: same verb, '*' vs verb, verb vs '*', re-declared implicit path after and before its owner is registered, across services and inside one service) — each on an empty mux and on a mux already serving another service, from service config and from annotations; distinct = (expectation class, outcome) × template shape")
 	r.Assume("grey zone (either outcome, but no panic and atomic): nested variables, literals/idents not starting with a letter, '**' not last, a field bound twice, variables on message/repeated/map fields, scalar body / non-message response_body selectors, '*'-kind vs verb conflicts")
 
 	schema, err := newRouteSchemaMulti("vt", 2)
@@ -215,6 +253,12 @@ func runC16(c *Ctx) {
 	}
 	// a few hand-picked shapes the edit distance does not reach
 	for _, e := range []string{"/{s={t}}", "/{s=a/{t}}", "/a/{n.s={t=*}}", "/{s=**}/a", "/**/a", "/{n}", "/{rs}", "/{mp}", "/{s.x}", "/{n.zz}", "/{zz}", "", "/", "a", "/{s}/{s}", "/a/b/c/d/e/f/g/h:vb"} {
+		if !seen[e] {
+			seen[e] = true
+			cands = append(cands, e)
+		}
+	}
+	for _, e := range c16Oversized() {
 		if !seen[e] {
 			seen[e] = true
 			cands = append(cands, e)
